@@ -254,7 +254,7 @@ func c14Case(c *caseCtx) {
 func c14EndToEnd(c *caseCtx) {
 	method := []string{"aspectEliminationHeuristic", "satisfactionHeuristic"}[c.idx%2]
 	increasing := method == "aspectEliminationHeuristic"
-	g := genRequest(c.rng, genOpts{method: method, minAlt: 2, maxAlt: 6, minCrit: 1, maxCrit: 4, nBiases: c.idx % 3, negValues: c.rng.Intn(3) == 0, distinctW: true})
+	g := genRequest(c.rng, genOpts{method: method, minAlt: 2, maxAlt: 6, minCrit: 1, maxCrit: 4, nBiases: c.idx % 3, negValues: c.rng.Intn(3) == 0, distinctW: true, dupChosen: true})
 	mp := g.M["methodParameters"].(M)
 	if mp["function"] == "thresholds" {
 		genLevelsGenerated(c, mp, increasing)
@@ -306,6 +306,11 @@ func c14EndToEnd(c *caseCtx) {
 	}
 	s := &ev.Before
 	lv := s.Params.Levels
+	if msg := checkReceived(d); msg != "" {
+		// the ranges are taken over all known alternatives of the request: the pipeline must have received them all
+		c.violate("request-not-as-sent", "the levels are generated for other data than the request carries: "+msg, M{"request": g.M})
+		return
+	}
 	if want := strOr(mp, "function", ""); lv.Fn != want {
 		c.violate("levels-function", fmt.Sprintf("level function in force is '%s', the request configures '%s'", lv.Fn, want), M{"request": g.M})
 		return
